@@ -1,5 +1,5 @@
 (* C14 model driver: one output line per case line (format: harness/h_C14.cpp)
-   case:   sugar <kind> <depth> <name> <N> <mintext> <maxtext> <opts> <init> <ops> <minconv> <maxconv> ...
+   case:   sugar <kind> <depth> <name> <N> <mintext> <maxtext> <opts> <init> <ops> <minconv> <maxconv> [<tv0>] ...
    The model gets the converted bounds (fields 10, 11: decimal for the integer
    kinds, 8 hex digits = float bit pattern for F / AF), never the text. *)
 let chars_of_string (s:string) : z list = List.init (String.length s) (fun i -> z_of_int (Char.code s.[i]))
@@ -8,7 +8,7 @@ let z_of_hex8 (h:string) : z = z_of_string (Printf.sprintf "%d" (int_of_string (
 let hex8_of_z (b:z) : string = Printf.sprintf "%08x" (int_of_z b)
 
 let kind_of = function
-  | "P" -> KP | "F" -> KF | "I" -> KI | "O" | "OE" -> KO | "T" -> KT
+  | "P" -> KP | "F" -> KF | "I" -> KI | "O" | "OE" | "OM" -> KO | "T" -> KT
   | "S1" -> KS (z_of_int 1) | "S5" -> KS (z_of_int 5) | "S16" -> KS (z_of_int 16)
   | "AI" | "PA" | "AIW" -> KAI | "AF" -> KAF | "AO" -> KAO | "AT" -> KAT
   | "PS" -> KPS (z_of_int 16)
@@ -46,7 +46,7 @@ let parse_val (v:string) : arg =
 
 let () = each_line (fun line ->
   match String.split_on_char ' ' line with
-  | "sugar" :: kind :: depth :: name :: n :: _ :: _ :: opts :: init :: ops :: minc :: maxc :: _ ->
+  | "sugar" :: kind :: depth :: name :: n :: _ :: _ :: opts :: init :: ops :: minc :: maxc :: rest ->
     (try
       let k = kind_of kind in
       let conv s = if s = "-" then None else Some (if is_float kind then z_of_hex8 s else z_of_string s) in
@@ -59,14 +59,26 @@ let () = each_line (fun line ->
       let st0 = if is_str kind then bytes_of_hex init
         else List.map (fun s -> if is_float kind then z_of_hex8 s else z_of_string s) (split_on ',' init) in
       let st = ref st0 in
+      (* the top-level table's own parameter: rParamI(tv, rLinear(-50, 50)) at "/tv" *)
+      let e_top = { p_name = chars_of_string "tv"; p_hash = false; p_min = Some (z_of_int (-50)); p_max = Some (z_of_int 50); p_map = [] } in
+      let tv = ref [ (match rest with t :: _ when t <> "-" -> z_of_string t | _ -> z_of_int 0) ] in
+      let below = if kind = "OM" then "om/" else "sub/" in
       let pieces = List.map (fun o ->
           let body = String.sub o 1 (String.length o - 1) in
           let idx, args = match String.index_opt body '=' with
             | None -> body, []
             | Some p -> String.sub body 0 p, [parse_val (String.sub body (p+1) (String.length body - p - 1))] in
           let m = name ^ idx in
-          let loc = "/" ^ (if depth = "1" then "sub/" else "") ^ m in
-          if not (dispatch_guard k (z_of_string n) (chars_of_string idx) args) then "NOMATCH"
+          let loc = "/" ^ (if depth = "1" then below else "") ^ m in
+          if o.[0] = 't' then begin
+            if depth <> "1" then "BADOP"
+            else match step KI e_top (chars_of_string "/tv") (chars_of_string "tv") !tv args with
+              | None -> "NONE"
+              | Some (tv', outs) ->
+                tv := tv';
+                if outs = [] then "-" else String.concat "+" (List.map show_out outs)
+          end
+          else if not (dispatch_guard k (z_of_string n) (chars_of_string idx) args) then "NOMATCH"
           else match step k e (chars_of_string loc) (chars_of_string m) !st args with
             | None -> "NONE"
             | Some (st', outs) ->
@@ -75,6 +87,7 @@ let () = each_line (fun line ->
       let state =
         if is_str kind then hex_of_bytes !st
         else String.concat "," (List.map (fun v -> if is_float kind then hex8_of_z v else string_of_int (int_of_z v)) !st) in
-      print_endline (String.concat ";" pieces ^ "#" ^ state)
+      let top = if depth = "1" then "@" ^ String.concat "," (List.map (fun v -> string_of_int (int_of_z v)) !tv) else "" in
+      print_endline (String.concat ";" pieces ^ "#" ^ state ^ top)
     with Failure m -> print_endline ("BADCASE " ^ m))
   | _ -> print_endline "BADCASE")
